@@ -51,6 +51,39 @@ def run(ctx):
     check_accumulator(ctx, facts)
     check_accumulator_window(ctx, facts)
     check_dzkp_consts(ctx, facts)
+    check_invert_users(ctx, facts)
+
+
+INVERT_USERS = {
+    # non-test bodies that may take a multiplicative inverse, with the reason the argument is never zero (or zero is refused)
+    "ff::prime_field::batch_invert": "the batch routine itself: one invert() of the product of its inputs; invert() asserts its argument is non-zero",
+    "ff::ec_prime_field::Fp25519::invert": "forwards to the scalar library",
+    "ff::ec_prime_field::batch_invert": "forwards to the scalar library's batch inversion",
+    "protocol::ipa_prf::malicious_security::lagrange::CanonicalLagrangeDenominator::<F, N>::new": "inverts products of differences i - j of distinct evaluation points below N: constants, never zero",
+    "protocol::ipa_prf::prf_eval::eval_dy_prf": "the Dodis-Yampolskiy PRF inverts the opened, blinded value r*(k + x), zero only with negligible probability",
+}
+
+
+def check_invert_users(ctx, facts):
+    """Division is the one field operation that is partial.  A helper that is supposed to agree with the plain field
+    operations "on all inputs" (Lagrange rows for any output point, batch results for any batch) must not divide by
+    something an input can make zero: multiplying the other factors works for every input, dividing the full product by
+    one factor is undefined exactly where that factor vanishes (an output point that is one of the input points)."""
+    ctx.rule("WHO-invert: PrimeField::invert / batch_invert (and the Fp25519 / scalar counterparts) are called, outside tests, only by the frozen set of users whose argument is a non-zero constant or for which zero is refused or negligible; every other caller is a violation")
+    rx = re.compile(r"(PrimeField::invert|::batch_invert|Fp25519::invert|Scalar::invert|Scalar::batch_invert)$")
+    n = 0
+    for p, b in sorted(facts.bodies.items()):
+        if facts.is_test_path(p) or not b.file.startswith("ipa-core/"):
+            continue
+        cs = [(bb, t) for bb, t in b.calls() if rx.search(F.callee(t)[0] or "")]
+        if not cs:
+            continue
+        n += 1
+        ctx.count(bodies=1, calls=len(cs))
+        root = p.split("::{closure")[0]
+        why = INVERT_USERS.get(root)
+        ctx.ob("WHO-invert", root[-80:], why is not None, why or f"{root.split('::')[-1]} takes a multiplicative inverse ({(F.callee(cs[0][1])[0] or '').split('::')[-1]}) of a value that is not known to be non-zero: the result is undefined (panic in invert's assertion, or a silent 0) for the inputs that make it vanish, where the plain field operations are defined", site_of(b, cs[0][0]))
+    ctx.floor("WHO-invert", "bodies that invert", n, 4)
 
 
 # ---------------------------------------------------------------------------------------------
